@@ -44,7 +44,7 @@ def run(ctx):
     rng = ctx.rng
     cases = []
     dist = {"entrypoints": 0, "graph_select": 0, "run_select": 0, "on_missing": {}, "failing": 0, "family": {}}
-    while len(cases) < ctx.n(260, 5000):
+    while len(cases) < ctx.n(600, 5000):
         g0, fam = gen.gen_program(rng, rng.choice(["dag", "dag", "gated", "emit", "loop"]))
         if rng.random() < 0.2:
             from harness.props.c02 import inject_failures
